@@ -63,8 +63,6 @@ CHECKS.update({
               "Programs of the whole supported grammar plus a regression corpus of shapes that used to crash; untagged rejections are violations.", "§6 C11"),
     "C12": tv("construct injection: one unsupported construct at a random statement position (and negative controls inside nested plain closures); verdict rejected-or-equal",
               "13 unsupported constructs x random positions; 5 negative controls that must be accepted and preserved.", "§6 C12"),
-    "C13": tv("three-way differential on non-generator code: source package (native, stub API) vs unoptimised stage vs generated package, under go 1.21 and go 1.22 module semantics",
-              "Bystander functions with eta-shaped closures over every callee form, package-level declarations, closures inside generator bodies.", "§6 C13"),
 })
 CHECKS["C18"]["technique"] += "; compiled generators with panicking atoms vs reference rendering; C18_compiled_panic_locality_partial: end to end (rewriter model + machine model), a panic of the source coroutine after k deliveries in user world u is the panic of the consumer loop over the machine's generator object after k deliveries in world u (fragment and side conditions of C01)"
 
@@ -129,6 +127,16 @@ CHECKS["C16"] = dict(
     text="C16_suffix_mapping, C16_src_file_mapping, C16_test_file_mapping; C16_old_mapping_refuted is the witness of the repaired defect 9a377ec (Props_C16.v). File contents, header, build/test with and without the tag, "
          "idempotence of the second run and stale <dir>_tmp are decided by the check only: layouts with names containing an earlier _co, a directory name containing _co.go, test files, plain siblings, API-less co files, blank imports, sub-packages, stale <dir>_tmp.",
     note="Trusted: Coq kernel; NameMap.v as a model of rewriter/compile.go GoGen's name mapping (compared with the created files on every run); the Go toolchain decides whether the package builds and its tests pass. No axioms.", design="§6 C16, §11")
+CHECKS["C13"] = dict(
+    category="proof",
+    technique="Coq proof (partial, the one pass that touches non-generator code): EtaModel.v models the optimiser's eta-reduction decision (arguments = parameters in order, identical types, stableCallee) over the classes of callee "
+              "expressions the code distinguishes and both readings of a closure (callee evaluated at every call / once where the literal stood) in a world of function variables, receivers and an effect counter; theorem: wherever the decision is "
+              "'reduce' the two readings agree for every world, intervening code and argument; the decision of the real optimiser on one closure of every class is compared with the model's decision (evaluated inside Coq) on every run; "
+              "three-way differential on non-generator code: source package (native, stub API) vs unoptimised stage vs generated package, under go 1.21 and go 1.22 module semantics",
+    text="C13_eta_reduction_sound_partial, C13_decision_keeps_everything_else, C13_side_condition_needed_var/_method/_call_result (Props_C13.v). Import clean-up, comment stripping, declarations other than closures and go 1.22 loop variables "
+         "are decided by the differential only: bystander functions with eta-shaped closures over every callee form, package-level declarations, closures inside generator bodies.",
+    note="Trusted: Coq kernel; EtaModel.v as a model of etaReduction/stableCallee in rewriter/optimize.go (its decision compared with the real optimiser on every run; the classification of a Go expression into a callee class is go/types' and the corpus author's); "
+         "the program generator and its renderings, refco, tr, the VerifCompile hook. No axioms.", design="§6 C13, §11")
 CHECKS["C11"] = dict(
     category="proof",
     technique="Coq proof (partial): on the supported fragment no assertion of the rewriter model can fail, for any fuel (Accept.v); in the final output every function literal at any depth "
